@@ -692,6 +692,11 @@ def plan_fd(ctx):
         r = fd_mc(ctx, "fd3", {"NVars": "3", "K": "4", "MaxEq": "0", "Sched": "{0}"})
         add(ctx, fd_cases_from_mc(ctx, r, "m3", 3, stride=3))
     add(ctx, fd_random(ctx, T(ctx, 500, 8000), "r", scheds=(0, 1, 2)))
+    rng = ctx["rng"]
+    for i in range(T(ctx, 800, 12000)):
+        body, nv = gen.fd_collapse_program(rng)
+        add(ctx, [{"id": "%s-col-%d" % (ctx["prop"], i), "kind": "program", "mode": "query",
+                   "qvars": list(range(1, nv + 1)), "body": body, "after": 1}])
 
 
 FD_ASSUME = ["integer window -3..3 (flow A) / -6..6 (random); <= 3 variables exhaustive, <= 4 random",
@@ -821,6 +826,17 @@ def plan_c04(ctx):
         else:
             nv = rng.randint(2, 3)
             base = fd_nested_program(rng, nv, -3, 3)
+        if r >= 0.55 and rng.random() < 0.5:
+            # two domains for one variable (interval and sparse): their intersection must not
+            # depend on which one is posted first, directly or through an equation
+            v = rng.randint(1, nv)
+            extra = [["dom", ["var", v], ["itv", lo if r < 0.8 else -3, (hi if r < 0.8 else 3)]],
+                     ["dom", ["var", v], ["vec", sorted(set(rng.randint(lo if r < 0.8 else -3, hi if r < 0.8 else 3) for _ in range(3)))]]]
+            if nv >= 2 and rng.random() < 0.5:
+                w = rng.choice([x for x in range(1, nv + 1) if x != v])
+                extra[1][1] = ["var", w]
+                extra.append(["eq", ["var", v], ["var", w]])
+            base = [g0 for g0 in base if not (g0[0] == "dom" and g0[1] == ["var", v])] + extra
         g = "C04-g%d" % i
         variants = [base]
         if len(base) <= 3 and all(x[0] not in ("conde", "fresh") for x in base):
